@@ -1,0 +1,14 @@
+//go:build verif
+
+package asm
+
+// VerifHook, when non-nil, receives one event per translator step: gen
+// identifies the translation, phase the step of the translation order and key
+// the entity being processed. Only present with build tag verif.
+var VerifHook func(gen interface{}, phase, key string)
+
+func verifTrace(gen interface{}, phase, key string) {
+	if h := VerifHook; h != nil {
+		h(gen, phase, key)
+	}
+}
